@@ -5,5 +5,5 @@ cd "$(dirname "$0")"
 . ./env.sh
 (cd checker && go build -o istiocheck .)
 # Warm-up: one load of /repo (go list -export compiles dependencies into the build cache). Not a check.
-(cd /repo && go list -export -deps ./pilot/... ./pkg/... ./security/... ./tools/istio-iptables/... ./tools/common/... >/dev/null 2>&1) || true
+(cd /repo && go list -trimpath -export -deps ./pilot/... ./pkg/... ./security/... ./tools/istio-iptables/... ./tools/common/... >/dev/null 2>&1) || true
 echo "setup ok"
